@@ -7,7 +7,7 @@
    [*_run I (reset I) as_ = Some s] reads: starting from reset, every action of [as_] lay inside the action
    mask of the state it was taken in, no step raised, and [s] is the state reached. *)
 From Coq Require Import ZArith List Bool Arith.
-From RL4CO Require Import Env.Selection Env.FLP Env.MCP Env.DPP.
+From RL4CO Require Import Env.Selection Env.FLP Env.MCP Env.DPP Env.SelectionStore.
 Import ListNotations.
 Open Scope Z_scope.
 
@@ -303,6 +303,128 @@ Theorem C08_dpp_dead_end_when_quota_exceeds_allowed_cells :
 Proof. exact dpp_dead_end_when_quota_exceeds_cells. Qed.
 Print Assumptions C08_dpp_dead_end_when_quota_exceeds_allowed_cells.
 
+(* ================================================================ episodes on one instance do not see each other *)
+(* Store-level model (Env/SelectionStore.v): tensors are buffers in [heap h], the caller's own tensor is at
+   address 0, every live episode holds a reference to its selection tensor (td["chosen"] for FLP/MCP,
+   td["action_mask"] for DPP/MDPP) next to the rest of its state.  A schedule [evs] is any list of
+   [EvReset same_container] (start another episode on the same instance; [true] = env.reset(td) on the caller's
+   own TensorDict object, which torchrl updates in place) and [EvStep k a] (step episode k with action a): any
+   number of episodes, one after the other or stepped alternately.  [*_store_run fresh clone]:
+   fresh = _reset allocates the tensor (false: returns the one it is handed), clone = _step writes into a new
+   tensor (false: scatters in place).  [acts_of k evs] = the actions addressed to episode k, in order.
+   The theorems say: with the code's discipline every episode of every schedule is in the state the row model
+   reaches on a fresh run of its own actions, its tensor read through the store is that state's tensor, and the
+   caller's tensor is bit-identical -- i.e. reset is a function of the instance only and step of (instance,
+   state, action) only.  This is the generic statement; the four instances follow. *)
+Theorem C08_store_model_with_clone_discipline_refines_row_model :
+  forall (inst st : Type) (get : st -> list bool) (reset : inst -> st) (reset_view : inst -> list bool -> st)
+         (step : inst -> st -> nat -> option st) (v : bool) (finish : inst -> st -> nat -> list bool -> option st),
+    (forall I s a, step I s a = if (length (get s) <=? a)%nat then None else finish I s a (set_nth a v (get s))) ->
+    (forall I s a b s', finish I s a b = Some s' -> get s' = b) ->
+    (forall I, reset_view I (get (reset I)) = reset I) ->
+    forall (fresh : bool) (I : inst) (c0 : list bool) (evs : list ev),
+      (fresh = false -> c0 = get (reset I) /\ no_same evs = true) ->
+      option_map (fun h => map snd (eps h)) (h_run inst st get reset reset_view v finish fresh true I evs (h_init st c0))
+        = f_run inst st reset step I evs [] /\
+      forall h, h_run inst st get reset reset_view v finish fresh true I evs (h_init st c0) = Some h ->
+        nth 0%nat (heap h) [] = c0 /\
+        forall k r s, nth_error (eps h) k = Some (r, s) ->
+          nth r (heap h) [] = get s /\ run_all (step I) (reset I) (acts_of k evs) = Some s.
+Proof. exact sel_store_refines. Qed.
+Print Assumptions C08_store_model_with_clone_discipline_refines_row_model.
+
+(* FLP as coded (chosen: fresh zeros at reset, .clone() before the scatter), whatever the caller's td["chosen"] holds *)
+Theorem C08_flp_repeated_and_interleaved_episodes_are_fresh_runs :
+  forall (I : flp_inst) (c0 : list bool) (evs : list ev) (h : hstore flp_st),
+    flp_store_run true true I evs (h_init flp_st c0) = Some h ->
+    nth 0%nat (heap h) [] = c0 /\
+    forall k r s, nth_error (eps h) k = Some (r, s) ->
+      nth r (heap h) [] = f_chosen s /\ flp_run_all I (flp_reset I) (acts_of k evs) = Some s.
+Proof. exact flp_store_refines. Qed.
+Print Assumptions C08_flp_repeated_and_interleaved_episodes_are_fresh_runs.
+
+Theorem C08_flp_store_model_raises_exactly_when_the_row_model_does :
+  forall (I : flp_inst) (c0 : list bool) (evs : list ev),
+    option_map (fun h => map snd (eps h)) (flp_store_run true true I evs (h_init flp_st c0)) =
+    f_run flp_inst flp_st flp_reset flp_step I evs [].
+Proof. exact flp_store_same_outcome. Qed.
+Print Assumptions C08_flp_store_model_raises_exactly_when_the_row_model_does.
+
+Theorem C08_mcp_repeated_and_interleaved_episodes_are_fresh_runs :
+  forall (I : mcp_inst) (c0 : list bool) (evs : list ev) (h : hstore mcp_st),
+    mcp_store_run true true I evs (h_init mcp_st c0) = Some h ->
+    nth 0%nat (heap h) [] = c0 /\
+    forall k r s, nth_error (eps h) k = Some (r, s) ->
+      nth r (heap h) [] = m_chosen s /\ mcp_run_all I (mcp_reset I) (acts_of k evs) = Some s.
+Proof. exact mcp_store_refines. Qed.
+Print Assumptions C08_mcp_repeated_and_interleaved_episodes_are_fresh_runs.
+
+(* DPP as coded: _reset keeps the caller's action_mask tensor, _step scatters out of place; every reset is handed
+   a TensorDict whose action_mask entry is the caller's tensor ([no_same]: see the last refuted theorem) *)
+Theorem C08_dpp_repeated_and_interleaved_episodes_are_fresh_runs :
+  forall (I : dpp_inst) (evs : list ev) (h : hstore dpp_st),
+    no_same evs = true ->
+    dpp_store_run false true I evs (h_init dpp_st (d_avail I)) = Some h ->
+    nth 0%nat (heap h) [] = d_avail I /\
+    forall k r s, nth_error (eps h) k = Some (r, s) ->
+      nth r (heap h) [] = d_mask s /\ run_all (dpp_step I) (dpp_reset I) (acts_of k evs) = Some s.
+Proof. exact dpp_store_refines. Qed.
+Print Assumptions C08_dpp_repeated_and_interleaved_episodes_are_fresh_runs.
+
+Theorem C08_mdpp_repeated_and_interleaved_episodes_are_fresh_runs :
+  forall (I : mdpp_inst) (c0 : list bool) (evs : list ev) (h : hstore dpp_st),
+    mdpp_store_run true true I evs (h_init dpp_st c0) = Some h ->
+    nth 0%nat (heap h) [] = c0 /\
+    forall k r s, nth_error (eps h) k = Some (r, s) ->
+      nth r (heap h) [] = d_mask s /\ run_all (mdpp_step I) (mdpp_reset I) (acts_of k evs) = Some s.
+Proof. exact mdpp_store_refines. Qed.
+Print Assumptions C08_mdpp_repeated_and_interleaved_episodes_are_fresh_runs.
+
+(* the disciplines that do NOT refine (witnesses by vm_compute).  (1) _reset returns the caller's chosen tensor
+   and _step scatters in place: the caller's tensor is mutated and the second episode on the instance, after its
+   own quota of 2, holds 4 facilities *)
+Theorem C08_flp_alias_reset_inplace_step_second_episode_refuted :
+  exists I evs h, flp_wf I /\
+    flp_store_run false false I evs (h_init flp_st (f_chosen (flp_reset I))) = Some h /\
+    no_same evs = true /\
+    nth 0%nat (heap h) [] <> f_chosen (flp_reset I) /\
+    exists r s, nth_error (eps h) 1%nat = Some (r, s) /\
+      flp_run_all I (flp_reset I) (acts_of 1%nat evs) <> Some s /\
+      f_done s = true /\ Z.of_nat (count_true (nth r (heap h) [])) = 4 /\ f_q I = 2.
+Proof. exact flp_alias_inplace_second_episode_refuted. Qed.
+Print Assumptions C08_flp_alias_reset_inplace_step_second_episode_refuted.
+
+(* (2) the same discipline, two rollouts stepped alternately: episode 1 took action 1 only and shows {1,3} *)
+Theorem C08_flp_alias_reset_inplace_step_interleaved_refuted :
+  exists I evs h, flp_wf I /\
+    flp_store_run false false I evs (h_init flp_st (f_chosen (flp_reset I))) = Some h /\ no_same evs = true /\
+    exists r s, nth_error (eps h) 1%nat = Some (r, s) /\
+      acts_of 1%nat evs = [1%nat] /\ nth r (heap h) [] = [false; true; false; true] /\
+      flp_run_all I (flp_reset I) (acts_of 1%nat evs) <> Some s.
+Proof. exact flp_alias_inplace_interleaved_refuted. Qed.
+Print Assumptions C08_flp_alias_reset_inplace_step_interleaved_refuted.
+
+(* (3) _reset returning the tensor it is handed is already wrong when the second env.reset(td) is given the
+   caller's own TensorDict object (no tensor is written twice; the container entry is the end of episode 0) *)
+Theorem C08_flp_alias_reset_same_container_refuted :
+  exists I evs h, flp_wf I /\
+    flp_store_run false true I evs (h_init flp_st (f_chosen (flp_reset I))) = Some h /\
+    nth 0%nat (heap h) [] = f_chosen (flp_reset I) /\
+    exists r s, nth_error (eps h) 1%nat = Some (r, s) /\ acts_of 1%nat evs = [] /\ s <> flp_reset I.
+Proof. exact flp_alias_reset_same_container_refuted. Qed.
+Print Assumptions C08_flp_alias_reset_same_container_refuted.
+
+(* (4) why [no_same] is a hypothesis for DPP: DPPEnv._reset takes the instance from the entry its own _step
+   overwrites in the caller's TensorDict (torchrl's in-place reset contract; outside this property, recorded in
+   the evidence as an out-of-scope observation) *)
+Theorem C08_dpp_second_reset_of_the_same_tensordict_object_refuted :
+  exists I evs h, dpp_wf I /\
+    dpp_store_run false true I evs (h_init dpp_st (d_avail I)) = Some h /\
+    nth 0%nat (heap h) [] = d_avail I /\
+    exists r s, nth_error (eps h) 1%nat = Some (r, s) /\ acts_of 1%nat evs = [] /\ d_mask s <> d_mask (dpp_reset I).
+Proof. exact dpp_same_container_second_reset_refuted. Qed.
+Print Assumptions C08_dpp_second_reset_of_the_same_tensordict_object_refuted.
+
 (* ================================================================ non-vacuity *)
 Example C08_flp_nonvacuous :
   flp_wf flp_ex /\
@@ -323,4 +445,18 @@ Proof. vm_compute. repeat split; reflexivity. Qed.
 Example C08_mdpp_nonvacuous :
   mdpp_wf mdpp_ex /\ option_map d_done (mdpp_run mdpp_ex (mdpp_reset mdpp_ex) [6; 0]%nat) = Some true /\
   mdpp_run mdpp_ex (mdpp_reset mdpp_ex) [3]%nat = None.
+Proof. vm_compute. repeat split; reflexivity. Qed.
+Example C08_store_nonvacuous :
+  option_map (fun h => (nth 0%nat (heap h) [], map (fun p => nth (fst p) (heap h) []) (eps h), map (fun p => f_done (snd p)) (eps h)))
+             (flp_store_run true true flp_ex store_ex_evs (h_init flp_st [false; false; false; false]))
+  = Some ([false; false; false; false],
+          [[false; true; false; true]; [true; false; true; false]; [true; true; false; false]; [false; false; true; true]],
+          [true; true; true; true]) /\
+  acts_of 1%nat store_ex_evs = [0; 2]%nat /\ acts_of 3%nat store_ex_evs = [2; 3]%nat /\
+  no_same [EvReset false; EvStep 0 8; EvReset false; EvStep 1 0; EvStep 0 0]%nat = true /\
+  option_map (fun h => map (fun p => d_mask (snd p)) (eps h))
+             (dpp_store_run false true dpp_ex [EvReset false; EvStep 0 8; EvReset false; EvStep 1 0; EvStep 0 0]%nat
+                            (h_init dpp_st (d_avail dpp_ex)))
+  = Some [[false; false; true; true; false; true; true; false; false];
+          [false; false; true; true; false; true; true; false; true]].
 Proof. vm_compute. repeat split; reflexivity. Qed.
